@@ -126,7 +126,8 @@ pub fn run(ctx: &mut Ctx) {
         let sps = [default_sp(), Sp::new("<!-- <", "> -->", "tl", "m")];
         for (ui, unit) in UNITS.iter().enumerate() {
             for (si, sp) in sps.iter().enumerate() {
-                if quick && ui != si % 3 && !(ui == 2 && si == 0) {
+                // quick tier: every unit once, split over the two spellings
+                if quick && (ui % 2 != si) {
                     continue;
                 }
                 for rank in (shard..SeamParams::count()).step_by(n as usize) {
